@@ -12,7 +12,7 @@
 ezc3d::DataNS::AnalogsNS::Channel::Channel(const std::string &name) :
     _name(name)
 {
-
+    ezc3d::removeTrailingSpaces(_name); // as the name setter does
 }
 
 ezc3d::DataNS::AnalogsNS::Channel::Channel(const ezc3d::DataNS::AnalogsNS::Channel &channel) :
